@@ -10,6 +10,7 @@ import (
 	"runtime"
 	"strings"
 	"sync"
+	"sync/atomic"
 	"syscall"
 	"time"
 
@@ -452,8 +453,67 @@ func init() {
 				idx++
 			}
 		}
+		retransmitsUntilDeadline(c, r)
 		c.Trivial("closed-port")
 		c.Flush()
-		c.RequireTags("silent-cancel", "silent-deadline", "flood-cancel", "late-reply", "expired-before", "late-reply-after-retries", "silent-interval", "stream-interval", "cancel-with-cause", "deadline-with-cause", "deadline-burst")
+		c.RequireTags("retransmits-until-deadline", "silent-cancel", "silent-deadline", "flood-cancel", "late-reply", "expired-before", "late-reply-after-retries", "silent-interval", "stream-interval", "cancel-with-cause", "deadline-with-cause", "deadline-burst")
 	}
+}
+
+// A retry interval together with a context deadline: the peer answers the fourth transmission only, which falls
+// into the last interval before the deadline (retry 200 ms, deadline 700 ms: transmissions at 0, 200, 400, 600 ms).
+// The exchange succeeds. A loaded machine can delay a tick; three attempts, one success is enough.
+func retransmitsUntilDeadline(c *Ctx, r *Rng) {
+	sec := []byte("s8")
+	var lastCopies int
+	var lastErr error
+	for attempt := 0; attempt < 3; attempt++ {
+		req := &radius.Packet{Code: radius.CodeAccessRequest, Identifier: byte(200 + attempt), Secret: sec}
+		copy(req.Authenticator[:], r.Bytes(16))
+		req.Add(1, []byte("u"))
+		wire, _ := req.Encode()
+		wireParsed, _ := radius.Parse(wire, sec)
+		pc, err := net.ListenPacket("udp", "127.0.0.1:0")
+		if err != nil {
+			c.Note("retransmits-until-deadline skipped: %v", err)
+			c.TagOnly("retransmits-until-deadline")
+			return
+		}
+		var copies int32
+		stop := make(chan struct{})
+		peerDone := make(chan struct{})
+		peerRng := r.Fork()
+		go func() {
+			defer close(peerDone)
+			buf := make([]byte, 4096)
+			for {
+				pc.SetReadDeadline(time.Now().Add(20 * time.Millisecond))
+				_, a, err := pc.ReadFrom(buf)
+				select {
+				case <-stop:
+					return
+				default:
+				}
+				if err != nil {
+					continue
+				}
+				if atomic.AddInt32(&copies, 1) == 4 {
+					pc.WriteTo(mkReply(peerRng, "authentic", wireParsed, wire, sec, 1), a)
+				}
+			}
+		}()
+		ctx, cancel := context.WithTimeout(context.Background(), 700*time.Millisecond)
+		cl := &radius.Client{Retry: 200 * time.Millisecond}
+		reply, xerr := cl.Exchange(ctx, req, pc.LocalAddr().String())
+		cancel()
+		close(stop)
+		<-peerDone
+		pc.Close()
+		lastCopies, lastErr = int(atomic.LoadInt32(&copies)), xerr
+		if xerr == nil && reply != nil {
+			c.Count("retransmits-until-deadline", fmt.Sprint(attempt))
+			return
+		}
+	}
+	c.Fail("spec", "Exchange", "retransmits-until-deadline", "retry=200ms, context deadline 700ms, the peer answers the 4th transmission only (3 attempts)", fmt.Sprintf("%v after %d transmissions", lastErr, lastCopies), "the reply, after 4 transmissions (0, 200, 400, 600 ms)", "while it waits it retransmits the request at the configured interval - until the context ends, not only while a whole interval remains")
 }
